@@ -280,6 +280,8 @@ pub mod endpoint;
 pub mod metrics;
 mod net_report;
 pub mod protocol;
+#[cfg(iroh_verif)]
+pub mod verif_hooks;
 
 pub use endpoint::{Endpoint, RelayMode};
 pub use iroh_base::{
@@ -301,6 +303,10 @@ pub mod unstable_net_report {
     /// without a major version bump.
     pub use crate::net_report::{Probe, RelayLatencies, Report as NetReport};
 }
+
+/// Verification hooks for the net report aggregation and history (`--cfg iroh_verif` only).
+#[cfg(all(iroh_verif, not(wasm_browser), with_crypto_provider))]
+pub use net_report::verif_hooks as verif_net_report;
 
 #[cfg(any(test, feature = "test-utils"))]
 pub mod test_utils;
